@@ -650,6 +650,12 @@ fn scen_body(sc: &Scen) {
 
 pub fn run_worker(spec: &E2Spec, w: usize, n: usize) -> WorkerOut {
     let mut out = WorkerOut::default();
+    #[cfg(feature = "hooks")]
+    let proto_on = spec.id == "C19";
+    #[cfg(feature = "hooks")]
+    if proto_on {
+        crate::proto::install_sink();
+    }
     for sc in &spec.scens {
         let sc2 = sc.clone();
         let cfg = Config {
@@ -659,6 +665,33 @@ pub fn run_worker(spec: &E2Spec, w: usize, n: usize) -> WorkerOut {
             ..Config::default()
         };
         let nontrivial_before = out.stats.counters.get("nontrivial_schedules").copied().unwrap_or(0);
+        #[cfg(feature = "hooks")]
+        let rep = shuttle::explore(cfg, move || {
+            if proto_on {
+                crate::proto::take_trace();
+            }
+            scen_body(&sc2);
+            if proto_on {
+                let trace = crate::proto::take_trace();
+                let mut st = crate::proto::ProtoStats::default();
+                let r = crate::proto::check_trace(&trace, &mut st);
+                bump("protocol_events", st.events);
+                bump("threads_blocked", st.blocks);
+                bump("lock_transfers", st.transfers);
+                bump("lock_transfers_changing_thread", st.transfers_changing_thread);
+                bump("releases_with_waiters", st.releases_with_waiters);
+                bump("resumed_completed", st.resumed_completed);
+                bump("resumed_panicked", st.resumed_panicked);
+                bump("resumed_cancelled", st.resumed_cancelled);
+                if st.blocks > 0 {
+                    bump("traces_with_waiting", 1);
+                }
+                if let Err(m) = r {
+                    viol(&format!("protocol:{}", sc2.name), m);
+                }
+            }
+        });
+        #[cfg(not(feature = "hooks"))]
         let rep = shuttle::explore(cfg, move || scen_body(&sc2));
         out.stats.executions += rep.schedules;
         out.stats.states += rep.states;
@@ -682,6 +715,10 @@ pub fn run_worker(spec: &E2Spec, w: usize, n: usize) -> WorkerOut {
         }
         let mut seen = std::collections::BTreeSet::new();
         for (sig, what, schedule) in VIOLS.lock().unwrap().drain(..) {
+            if spec.id == "C19" && !sig.starts_with("protocol:") {
+                // value oracles of the borrowed harnesses belong to their own properties
+                continue;
+            }
             let sig = format!("{}:{}", spec.id, sig);
             if seen.insert(sig.clone()) {
                 out.viols.push(Viol {
